@@ -144,6 +144,18 @@ def build():
     a(("colspan-huge-wide", ("intro " * 100) + "\n\n{|\n|-\n| colspan=\"300000000\" | a\n| b\n|-\n| " + "word " * 1200 + "\n| d\n|}\n"))
     a(("colspan-huge", "{|\n|-\n| colspan=99999999 | a || b\n|-\n| c || d\n|}\n"))
     a(("rowspan-huge", "{|\n|-\n| rowspan=99999999 | a || b\n|-\n| c || d\n|}\n"))
+    # tables that are dissolved into columns, with a caption that carries inline markup / a hidden caption that defines a named reference
+    bigcell = "word " * 1200
+    a(("linearize-caption-inline", ("intro " * 100) + "\n\n{|\n|+ Results ''(final)'' of the '''2009''' [[season]] here\n|-\n| " + bigcell + "\n| d\n|-\n| e || f\n|}\n"))
+    a(("mp-upper-caption-inline", ("intro " * 100) + "\n\n{| id=\"mp-upper\"\n|+ Cap ''it'' and '''bo''' [[link]]\n|-\n| a || b\n|-\n| c || d\n|}\n"))
+    a(("hidden-caption-named-ref", "{|\n|+ style=\"display:none\" | cap<ref name=\"src\">r text</ref>\n|-\n| a || b\n|-\n| c<ref name=\"src\"/> || d\n|}\n"))
+    a(("noprint-caption-named-ref", "{|\n|+ class=\"noprint\" | cap<ref name=\"src\">r text</ref>\n|-\n| a || b\n|-\n| c<ref name=\"src\"/> || d\n|}\n"))
+    a(("hidden-cell-named-ref", "{|\n|-\n| style=\"display:none\" | x<ref name=\"s2\">r</ref> || b\n|-\n| c<ref name=\"s2\"/> || d\n|}\n"))
+    a(("overflow-two-cells", "{|\n| style=\"overflow:auto;height:200px\" | a\n| style=\"overflow:auto;height:200px\" | b\n|}\n"))
+    a(("overflow-list", "<ul style=\"overflow:auto; height:200px\"><li>a</li><li>b</li></ul>\n"))
+    a(("li-h2-noprint-then-p", "<ul><li><h2><span class=\"noprint\">S</span></h2><p>para</p></li></ul>\n"))
+    a(("li-h2-empty-then-p", "<ul><li><h2></h2><p>para</p></li></ul>\n"))
+    a(("same-indent-lines-twice", "intro\n\nalpha\n: same\nbeta\n: same\ngamma\n\nend\n"))
     return T
 
 
